@@ -19,6 +19,7 @@
 -/
 import MitmVerif.Basic.Bytes
 import MitmVerif.Model.C13
+import MitmVerif.Gen.C19
 namespace MitmVerif.C19
 
 inductive Res (α : Type) where
@@ -158,8 +159,9 @@ def renderHeadMixed (reqLine : Bytes) (rlLf : Bool) (fs : List (Field × Bool)) 
 
 def be32 (a b c d : UInt8) : Nat := a.toNat * 16777216 + b.toNat * 65536 + c.toNat * 256 + d.toNat
 
-def knownQuicVersions : List Nat := [0x00000001, 0x51303433, 0x51303436, 0x51303530, 0x6B3343CF, 0x709A50C4]
-def typicalQuicPorts : List Nat := [80, 443, 8443]
+/-- `KNOWN_QUIC_VERSIONS`, `TYPICAL_QUIC_PORTS`: regenerated from next_layer.py on every run (`Gen.C19`) -/
+def knownQuicVersions : List Nat := Gen.C19.knownQuicVersions
+def typicalQuicPorts : List Nat := Gen.C19.typicalQuicPorts
 
 /-- `version & 0x0F0F0F0F == 0x0A0A0A0A` -/
 def reservedVersion (a b c d : UInt8) : Bool :=
@@ -320,6 +322,12 @@ structure NCfg (Pat : Type) extends Cfg Pat where
   alpnSet : Bool                   -- bool(client.alpn)
   alpnHttp : Bool                  -- client.alpn in HTTP_ALPNS
   quicV1 : Bool                    -- client.tls_version == "QUICv1"
+
+/-- `bool(client.alpn)` and `client.alpn in HTTP_ALPNS` (table regenerated from tls.py) -/
+def alpnFlags (alpn : Option Bytes) : Bool × Bool :=
+  match alpn with
+  | some a => (!a.isEmpty, !a.isEmpty && Gen.C19.httpAlpns.contains a)
+  | none => (false, false)
 
 def relayLayer (tcp ignore : Bool) : LK := if tcp then .tcp ignore else .udp ignore
 
